@@ -9,6 +9,8 @@ namespace Ipv8.C02
 
 def wfField : SField → Atom → Bool
   | .fixed n, .bytes b => b.length == n        -- "Ns" pads / truncates anything else
+  | .bool, .bool _ => true                     -- "?" packs any truthy object but decodes to a bool
+  | .bool, _ => false
   | _, _ => true
 
 def wfFields : List SField → List Atom → Bool
@@ -42,7 +44,7 @@ mutual
 def wf : Fmt → Val → Bool
   | .struct fs, .atom a => fs.length == 1 && wfFields fs [a]
   | .struct fs, .tuple as => fs.length != 1 && wfFields fs as
-  | .bits, .tuple as => as.all isBit
+  | .bits, .tuple as => as.length == 8 && as.all isBit
   | .ipv4, .addr a => wfAddr a
   | .address _, .addr a => wfAddr a
   | .varlen _ base, .atom (.bytes b) => base != 0 && b.length % base == 0
